@@ -232,6 +232,7 @@ void body(const Json& prog, const std::string& root) {
     sim::set_dirsim(dc);
     sim::reset_handle_count();
     if (chdir(root.c_str()) != 0) { perror("chdir root"); _exit(13); }
+    const int fds_at_start = count_open_fds();
     struct Frame { std::unique_ptr<DirectoryVisitor> v; std::string before; };
     std::vector<Frame> stack;
     auto pop = [&] {
@@ -305,6 +306,11 @@ void body(const Json& prog, const std::string& root) {
     check_missing("relative-missing-entry");
     string_laws(prog.at("laws"));
     if (sim::open_handles() != 0) sim::violation("handle-leak", std::to_string(sim::open_handles()) + " FILE*/DIR* handles still open at the end of the run");
+    {   // plain file descriptors too (open()/dup() that bypass stdio): what /proc/self/fd shows must be what it showed at the start
+        int fds_now = count_open_fds();
+        if (fds_now != fds_at_start)
+            sim::violation("handle-leak", "the process holds " + std::to_string(fds_now) + " file descriptors at the end of the run, " + std::to_string(fds_at_start) + " at its start");
+    }
     sim::set_dirsim(sim::DirSimConfig());
 }
 
@@ -348,8 +354,15 @@ static Json gen_tree(sim::Rng& g, int depth, int maxdepth, int maxfan, bool thor
     n.set("n", name);
     Json kids = Json::array();
     int fan = depth == 0 ? g.range(1, maxfan) : g.range(0, maxfan);
+    std::string prev_file;
     for (int i = 0; i < fan; i++) {
         std::string kn = gen_name(g, serial++);
+        if (!prev_file.empty() && g.below(6) == 0) {   // a sibling that differs from the previous file only in ASCII case
+            kn = prev_file;
+            for (auto& c : kn) c = (char)(isupper((unsigned char)c) ? tolower((unsigned char)c) : toupper((unsigned char)c));
+            if (kn == prev_file) kn = gen_name(g, serial++);
+            prev_file.clear();   // never flip twice in a row: that would bring the original name back
+        }
         bool subdir = depth + 1 < maxdepth && g.below(3) == 0;
         if (subdir && g.below(4) == 0) kn = "n" + std::to_string(serial++) + std::string(190, 'D');  // working directories beyond 255 bytes
         if (subdir) kids.push(gen_tree(g, depth + 1, maxdepth, maxfan, thorough, serial, kn));
@@ -363,6 +376,7 @@ static Json gen_tree(sim::Rng& g, int depth, int maxdepth, int maxfan, bool thor
                 g_gen_has_huge = true;
             }
             kids.push(Json::object().set("n", kn).set("s", s));
+            if (!kn.empty() && kn[0] == 'n') prev_file = kn; else prev_file.clear();
         }
     }
     n.set("d", kids);
